@@ -501,6 +501,28 @@ pub fn run_cli_cpu(scn: &Scenario) -> (History, u64) {
     }
 }
 
+/// Execute `preds` one after the other and then `scn`, all on ONE fresh thread (thread-locals of
+/// the code under test live on from run to run); returns the history of `scn` only.
+pub fn run_after(preds: &[Scenario], scn: &Scenario) -> History {
+    let preds: Vec<Scenario> = preds.to_vec();
+    let scn2 = scn.clone();
+    let stack = preds.iter().map(|p| p.stack_kib).chain(std::iter::once(scn.stack_kib)).max().unwrap_or(8192);
+    let h = std::thread::Builder::new()
+        .stack_size(stack.max(64) * 1024)
+        .spawn(move || {
+            for p in &preds {
+                let _ = run_here(p, None);
+            }
+            run_here(&scn2, None).0
+        })
+        .expect("spawn")
+        .join();
+    match h {
+        Ok(h) => h,
+        Err(_) => panic!("harness thread panicked outside the simulated run"),
+    }
+}
+
 /// Self-check of the simulator: what the records say equals what descriptor 1 accepted
 pub fn self_check(h: &History) -> Result<(), String> {
     let recs = h.records_text();
